@@ -361,8 +361,28 @@ _LEAF_KINDS = ('lit', 'ci', 'rx', 'byte', 'ref', 'backtrack', 'fail', 'py')
 
 
 def rx_nullable(p):
+    """May the pattern match without consuming?  Lookarounds and anchors make that depend on
+    the context ('(?=a)' does not match '' but matches, with width 0, in front of an 'a'), so
+    the pattern is probed in every context of up to three characters."""
     if p not in _RX_NULLABLE:
-        _RX_NULLABLE[p] = re.compile(p).match('' if isinstance(p, str) else b'') is not None
+        rx = re.compile(p)
+        alpha = 'abAB1 Z\n'
+        if not isinstance(p, str):
+            alpha = alpha.encode('latin-1')
+        probes = [alpha[:0]] + [alpha[i:i + 1] for i in range(len(alpha))]
+        if any(c in (p if isinstance(p, str) else p.decode('latin-1')) for c in ('(?', '$', '^', '\\b', '\\B', '\\Z', '\\A')):
+            one = probes[1:]
+            probes += [x + y for x in one for y in one]
+        found = False
+        for t in probes:
+            for i in range(len(t) + 1):
+                m = rx.match(t, i)
+                if m is not None and m.end() == i:
+                    found = True
+                    break
+            if found:
+                break
+        _RX_NULLABLE[p] = found
     return _RX_NULLABLE[p]
 
 
